@@ -24,6 +24,7 @@ STAGES_TRUSTED = [
     'unit initstage R5 pinned statements: comparisons of two [u8; 20] salted hashes (==, <, >, <=, >= in either order) through arr20_eq / arr20_gt (lexicographic order as uninterpreted function lex_gt), `CryptoCore::new(` -> core_new(; R1: the statement `self.selected_algorithm = ...` (field used by tests only) is dropped; R4: InitState without key_pair and selected_algorithm; R8: the two `.map_err(|_| Error::CryptoInitFatal(..))` closures get `ensures o is CryptoInitFatal`',
     'the representation invariant of handshake objects is carried as far as the per-peer object: a fresh object satisfies it (block of InitState::new), InitState::{handle_init, every_second, take_core} preserve it except on a FATAL error in the pong arm, PeerCrypto::{handle_message, handle_init_message, every_second} (unit buffer, through the shared clause files units/iface/handle_init.*, init_every_second.contract, init_take_core.ensures) preserve it for their handshake object with the same exception, and a finished handshake object (the only kind inside an established peer) is never spoiled. NOT proved at node level: that GenericCloud discards a pending object after a fatal error (handle_socket_event: `self.pending_inits.remove(&src)`; sources of the real UdpSocket / proxy are always V6 so the removal key equals the mapped lookup key) - reading',
 ]
+NEG_DRV = {'file': 'native/init_negotiation.rs', 'attach': 'src/crypto/init.rs', 'test': 'negotiated_outcome_matches_the_property'}
 BASE62_DRV = {'file': 'native/base62_long.rs', 'attach': 'src/util.rs', 'test': 'text_codec_round_trips_long_strings'}
 TABLE_MODEL = {'file': 'native/table_model.rs', 'attach': 'src/table.rs', 'test': 'table_matches_reference_model'}
 
@@ -163,8 +164,11 @@ PROPS['C06'] = {
     'verus': [{'unit': 'codec', 'rlimit': 100, 'fns': ['InitMsg::read_from', 'lemma_cur_adv', 'canary_.*']},
               # what handle_init does with the selection: the core is built from exactly the selected algorithm (none: plain), a first
               # ping / expected pong without common cipher is a fatal error without reply ("fails cleanly")
-              {'unit': 'initstage', 'fns': ['InitState::handle_init', 'canary_.*']}],
-    'native_search': {r'codec::InitMsg.*': INIT_DRV, r'initstage::.*': STAGES_DRV},
+              {'unit': 'initstage', 'fns': ['InitState::handle_init', 'canary_.*']},
+              # WRITE side of the cipher list: the algorithms statements of InitMsg::write_to (block) write exactly enc_algos_part, and
+              # the format specification InitMsg::read_from is proved against reads back list, order, speeds and plain flag (theorem)
+              {'unit': 'initenc'}],
+    'native_search': {r'codec::InitMsg.*': INIT_DRV, r'initstage::.*': [NEG_DRV, STAGES_DRV], r'initenc::.*': [INIT_DRV, NEG_DRV]},
     'kani': {
         'files': {'src/crypto/init.rs': ['kani/initblocks.rs.in']},
         'harnesses': [
@@ -175,11 +179,12 @@ PROPS['C06'] = {
         'harness_timeout': '120m', 'timeout_s': 9000,
     },
     'trusted': STAGES_TRUSTED + [
+        'unit initenc: std::io::Write for in-memory writers (written / room), byteorder writes through wrappers (T1), f32 <-> 4 big-endian bytes as uninterpreted functions with the axiom f32_be(f32_bytes(v)) == v (to_bits / from_bits), identity of the ring algorithm statics through algo_code; the list holds only the three known ciphers (precondition: the `unreachable!()` of the loop)',
         'the advertised lists reach select_algorithm unaltered (Ed25519 signature over the handshake message; C01 is not decided)',
         'a peer may send duplicate or more than three entries on the wire; lists with distinct ciphers only are covered',
         'NaN speeds are excluded (the property excludes them)',
     ],
-    'not_decided': ['"altering the lists in transit makes the handshake fail": InitMsg::read_from accepts only correctly signed messages (C01, unit codec) and hands on exactly the decoded list; InitMsg::write_to (how the list is written) is not under contract, the native driver checks the write/read round trip of every subset in every order',
+    'not_decided': ['"altering the lists in transit makes the handshake fail": InitMsg::read_from accepts only correctly signed messages (C01, unit codec) and hands on exactly the decoded list; of InitMsg::write_to only the statements that write the algorithms part are under contract (unit initenc, with the list round-trip theorem); the native driver checks the write/read round trip of every subset in every order',
                     'Crypto::parse_algorithms (String handling: to_uppercase, Vec<String>) is not under contract'],
 }
 
@@ -216,9 +221,11 @@ CODEC_TRUSTED = [
 CODEC_DRV = {'file': 'native/codec_model.rs', 'attach': 'src/messages.rs', 'test': 'node_info_codec_matches_the_format'}
 PROPS['C16'] = {
     'level': 'proof',
-    'native_search': {r'codec::(NodeInfo|Range|Address|theorem_(peer|claims)).*': CODEC_DRV, r'codec::InitMsg.*': INIT_DRV},
+    'native_search': {r'codec::(NodeInfo|Range|Address|theorem_(peer|claims)).*': CODEC_DRV, r'codec::InitMsg.*': INIT_DRV, r'initenc::.*': INIT_DRV},
     'level_text': 'Proof (Verus, real code, unbounded lengths, termination included): NodeInfo::{decode, decode_internal, decode_peer_list_part, decode_claims_part, read_addr_list, read_addr_list_inner}, Range::read_from, Address::{read_from, read_from_fixed} and RotationMessage::read_from against a format specification written from the wire format (value or error for EVERY byte sequence; unknown parts are skipped; only the length of the three fixed-size known parts is left unspecified when it disagrees with their content); the encoders NodeInfo::{encode_peer_list_part, encode_addrs_part}, Range/Address::write_to, RotationMessage::write_to against byte-exact output specifications; round-trip THEOREMS decode-spec(encode-spec(x)) == normalise(x) for peer lists (at most seven addresses per family, IPv6 first), claim lists and rotation messages. Proof (Kani, full domain): Range/Address codec. the encoder-side framing NodeInfo::encode_part (tag, length patched by seek-back, body of an FnOnce part writer - higher-order contract) and the parts block of NodeInfo::encode_internal (five closures): written bytes == enc_node(self); and the NodeInfo-level THEOREM decode-spec(enc_node(n)) == normalise(n). InitMsg::read_from (handshake) is proved total and signature-gated; its field values and InitMsg::write_to are NOT decided, nor are the three statements of encode_internal around the block (Cursor::new over MsgBuffer::buffer, set_length).',
-    'verus': [{'unit': 'codec', 'rlimit': 100}],
+    'verus': [{'unit': 'codec', 'rlimit': 100},
+              # handshake message, cipher list: write side byte-exact + round trip against the decoder's format specification
+              {'unit': 'initenc'}],
     'kani': {
         'files': {'src/types.rs': ['kani/types.rs']},
         'harnesses': [
